@@ -113,7 +113,7 @@ Proof.
     assert (H0 : Core w0).
     { destruct H as [m [Hm [Hst [Hfl Hdq]]]]. exists m. cbn. repeat split; auto.
       - destruct (st w); auto. destruct Hst as [A [B C]]. auto.
-      - intros [A|[c1 A]]; [apply Hdq; left; exact A | discriminate]. }
+      - intros [A|[c1 [r1 A]]]; [apply Hdq; left; exact A | discriminate]. }
     destruct (is_closed w0) eqn:Ec.
     { injection Hs as <- <-. intros A B C. left.
       unfold is_closed in Ec. rewrite A in Ec. destruct (flag w0) eqn:Ef; [|discriminate].
